@@ -112,6 +112,8 @@ pub mod ev {
     /// The registry scan has unlinked the entry (`addr`) of an exited participant and is about
     /// to defer its destruction.
     pub const REGISTRY_UNLINK: u32 = 7;
+    /// A bag has been sealed with epoch word `aux` and pushed to the global queue.
+    pub const BAG_SEALED: u32 = 8;
 }
 
 pub use crate::ebr_impl::verif_local_state as local_state;
